@@ -96,6 +96,8 @@ def gen_members(rng, nmax=60):
             if kind == "file" and any(k_ == "size" for k_, _ in recs) and rng.random() < 0.4:
                 m["hdr_size_zero"] = True
             m["pax_first"] = rng.random() < 0.5
+        if kind in ("file", "std"):
+            m["mode"] = rng.choice([0o644, 0o644, 0o755, 0o664, 0o666, 0o775, 0o600, 0o444])
         if kind in ("file", "std", "empty") and not name.endswith("/"):
             # regular files may carry the old-style NUL type flag or the 'contiguous file' flag
             m["typeflag"] = rng.choice([b"0", b"0", b"0", b"\0", b"7"])
@@ -293,6 +295,33 @@ def run(case: dict, ctx) -> dict:
                 if on_disk is not None and on_disk != want_ and [n2 for n2, _w in safe].count(name_) == 1:
                     res["viol"].append({"what": "extract() returned normally although the medium failed, and left other bytes than the stored ones on disk",
                                         "mech": MECH, "detail": {"member": name_[:60], "stored_len": len(want_), "on_disk_len": len(on_disk), "fault_fired": fired}})
+    if not far and safe and not res["viol"] and case["i"] % 3 == 1:
+        # plain extraction to disk, the way a caller who passes nothing special does it: the file appears with the stored bytes and
+        # the permission bits recorded in its header (as any tar reader of this Python version would create it)
+        import os as _os
+        import warnings as _w
+
+        name_, want_ = rng.choice(safe)
+        if [n2 for n2, _x in safe].count(name_) == 1 and not any(n3 != name_ and (n3.startswith(name_ + "/") or name_.startswith(n3 + "/")) for n3, _k, _s, _m in got):
+            mode_ = next(mm.get("mode", 0o644) for mm in members if mm["name"] == name_ and mm["kind"] in ("file", "std"))
+            dest = ctx.tmpdir()
+            old_umask = _os.umask(0o022)
+            try:
+                with _w.catch_warnings():
+                    _w.simplefilter("ignore")
+                    t3 = call(lambda: vmtar.open(fileobj=io.BytesIO(raw)))
+                    ex = call(lambda: t3.value.extract(name_, path=dest)) if t3.ok else t3
+            finally:
+                _os.umask(old_umask)
+            p_out = _os.path.join(dest, name_)
+            cnt["plain_extractions_to_disk"] = cnt.get("plain_extractions_to_disk", 0) + 1
+            if not ex.ok:
+                res["viol"].append({"what": f"extract() of a regular member failed: {ex.brief()}", "mech": MECH, "detail": {"member": name_[:60]}})
+            elif not _os.path.isfile(p_out) or open(p_out, "rb").read() != want_:
+                res["viol"].append({"what": "extract() left other bytes than the stored ones on disk", "mech": MECH, "detail": {"member": name_[:60]}})
+            elif (_os.stat(p_out).st_mode & 0o777) != mode_:  # (tarfile applies the recorded mode with chmod, the umask does not enter)
+                res["viol"].append({"what": "extract() created the file with other permission bits than its header records", "mech": MECH,
+                                    "detail": {"member": name_[:60], "header_mode": oct(mode_), "on_disk": oct(_os.stat(p_out).st_mode & 0o777)}})
     if far and hasattr(fobj, "mutations") and fobj.mutations:
         res["viol"].append({"what": "handle mutated", "mech": "c09.handle", "detail": {}})
     kinds = [m["kind"] for m in members]
